@@ -23,6 +23,31 @@ def fmtGEvent (toks : List String) (terminal : Bool) : String :=
     else toks
   "o=" ++ String.intercalate ";" toks
 
+/-- the log of an `iter` event: the terminal fan-out at the end (`g<k>:C`* then the outer terminal) is sorted -/
+def fmtIterEvent (toks : List String) : String :=
+  let r := toks.reverse
+  let (last, r1) := match r with
+    | t :: r' => if t == "C" || t.startsWith "E" then ([t], r') else ([], r)
+    | [] => ([], [])
+  let run := r1.takeWhile (fun t => t.startsWith "g" && t.endsWith ":C")
+  let rest := r1.dropWhile (fun t => t.startsWith "g" && t.endsWith ":C")
+  "o=" ++ String.intercalate ";" (rest.reverse ++ (run.toArray.qsort (· < ·)).toList ++ last)
+
+/-- event `iter k`: `from_iter(0..k)` in front of a fresh group_by: items are pulled while the observer
+    (GroupByObserver, whose `is_finished` is that of the outer chain) does not report finished; then `complete`. -/
+def runIter (key : Val → Val) (w : GroupBy.World) (k : Nat) : GroupBy.World × List Out × Nat :=
+  let rec loop (fuel : Nat) (i : Nat) (w : GroupBy.World) (acc : List Out) : GroupBy.World × List Out × Nat :=
+    match fuel with
+    | 0 => (w, acc, i)
+    | fuel + 1 =>
+      if chainFinished w.outer || i ≥ k then (w, acc, i)
+      else
+        let (w', o) := w.step key id (.emit (.next (.int i)))
+        loop fuel (i + 1) w' (acc ++ o)
+  let (w1, o1, pulls) := loop (k + 1) 0 w []
+  let (w2, o2) := w1.step key id (.emit .complete)
+  (w2, o1 ++ o2, pulls)
+
 def parseGEv (ev : List SExp) : Option Ev :=
   match ev with
   | .atom "emit" :: n :: _ => some (.emit (parseNotif n))
@@ -41,6 +66,10 @@ def runGroupByCase (cid : String) (field : String → List SExp) (events : List 
     | ev :: r =>
       match ev with
       | .atom "q" :: _ => s!"{cid}.{k} kc={kc}" :: go w kc (k + 1) r
+      | .atom "iter" :: n :: _ =>
+        -- a fresh pipeline (the hot one of the case is left as it is)
+        let (_, o, pulls) := runIter key (GroupBy.World.init outer skip) n.nat
+        s!"{cid}.{k} {fmtIterEvent (o.map showGOut)} pulls={pulls}" :: go w kc (k + 1) r
       | _ =>
       match parseGEv ev with
       | some x =>
